@@ -59,6 +59,18 @@ class Callable_:
         return ("m", self.a, z)
 class CallableChild(Callable_):
     pass
+def kw_named_like_wrapper(self=0, args=1, kwargs=2, obj=3):
+    return ("kw", self, args, kwargs, obj)
+class Slotted:
+    __slots__ = ("a",)
+    def __init__(self, a=5):
+        self.a = a
+    def m(self, z):
+        return ("m", self.a, z)
+class SlottedCallable(Slotted):
+    __slots__ = ()
+    def __call__(self, x):
+        return ("called", self.a, x)
 def make_counter():
     n = 0
     def counter(step=0):
@@ -100,7 +112,8 @@ def probes_for(kind):
 
 FUNCS = ["plain", "lam", "clo", "nst", "rec", "par"]
 INSTANCES = [("Plain", (), {}), ("Arg1", (4,), {}), ("ArgKw", (4,), {"k": 6}),
-             ("Callable_", (3,), {}), ("CallableChild", (), {})]
+             ("Callable_", (3,), {}), ("CallableChild", (), {}), ("Slotted", (6,), {}),
+             ("SlottedCallable", (7,), {})]
 ATTRS = ["tag", "v", "a", "k", "prop"]
 
 
@@ -144,7 +157,7 @@ def main(tier):
     def viol(sig, msg, case):
         rep.add_violation(dict(signature=f"C16:{sig}", msg=f"{msg} [case {case}]", case=repr(case)))
 
-    def check_obj(obj, kind, case, keep, trips, double):
+    def check_obj(obj, kind, case, keep, trips, double, proto=None):
         nonlocal n
         n += 1
         ref = behaviour(obj, kind)
@@ -166,7 +179,8 @@ def main(tier):
         cur = w
         for t in range(trips):
             try:
-                cur = pickle.loads(pickle.dumps(cur))
+                cur = pickle.loads(pickle.dumps(cur) if proto is None
+                                   else pickle.dumps(cur, protocol=proto))
             except BaseException as e:
                 viol(f"round-trip-fails:{type(e).__name__}", f"plain pickle round trip #{t + 1} "
                      f"of the wrapper failed: {e!r}", case)
@@ -198,6 +212,45 @@ def main(tier):
         for keep, trips, double in itertools.product([True, False], trips_dom, doubles):
             obj = ns[cname](*args, **kw)
             check_obj(obj, cname, ("instance", cname, keep, trips, double), keep, trips, double)
+    # every pickle protocol of the enclosing pickler (the payload is cloudpickle's business)
+    for proto in range(pickle.HIGHEST_PROTOCOL + 1):
+        for kind in FUNCS:
+            for keep in (True, False):
+                check_obj(ns[kind], kind, (kind, keep, 2, None, f"protocol={proto}"), keep, 2, None, proto)
+        for cname, args, kw in INSTANCES:
+            for keep in (True, False):
+                check_obj(ns[cname](*args, **kw), cname,
+                          ("instance", cname, keep, 2, None, f"protocol={proto}"), keep, 2, None, proto)
+    # keyword arguments of the wrapped callable named like the wrapper's own parameters
+    for keep in (True, False):
+        n += 1
+        f = ns["kw_named_like_wrapper"]
+        w = wrap(f, keep_wrapper=keep)
+        for kwargs in ({"self": 9}, {"args": 8, "kwargs": 7}, {"obj": 6, "self": 5}, {}):
+            try:
+                got = w(**kwargs)
+            except BaseException as e:       # noqa
+                got = f"EXC:{type(e).__name__}:{e}"
+            if got != f(**kwargs):
+                viol("call-not-forwarded:keyword-named-like-wrapper-parameter",
+                     f"wrapper(**{kwargs}) gave {got!r}, the callable gives {f(**kwargs)!r}",
+                     ("kw", keep, tuple(kwargs)))
+    # the documented decorator use on a function that refers to itself by its (now wrapped) name
+    dns = {"__name__": "__vf_main_like__", "wrap": wrap}
+    exec(compile("@wrap\ndef drec(n):\n    return 1 if n <= 1 else n * drec(n - 1)\n"
+                 "@wrap\ndef dplain(n):\n    return ('dplain', n)\n", "<c16-decorated>", "exec"), dns)
+    for name, probe, exp in (("dplain", 4, ("dplain", 4)), ("drec", 5, 120)):
+        n += 1
+        try:
+            back = pickle.loads(pickle.dumps(dns[name]))
+            got = back(probe)
+        except BaseException as e:           # noqa
+            viol(f"decorated-function:{name}:round-trip-fails:{type(e).__name__}",
+                 f"@wrap_non_picklable_objects on {name}: plain pickle round trip fails: {e!r}",
+                 ("decorated", name))
+            continue
+        if got != exp:
+            viol(f"decorated-function:{name}:wrong-result", f"{got!r} instead of {exp!r}", ("decorated", name))
     # class wrappers: the wrapped class is a constructor of wrapper instances
     for cname, args, kw in INSTANCES:
         for keep, trips in itertools.product([True, False], trips_dom):
